@@ -34,6 +34,7 @@ class Gate:
         self.enabled = True
         self.passed = {}
         self.owner = {}
+        self.active = 0        # worker threads currently inside Job.evaluate
 
     def arrive(self, key):
         if not self.enabled:
@@ -66,12 +67,15 @@ def controller(gate, rng, done, settle, pct=None):
             gate.cv.wait_for(lambda: len(gate.waiting) > 0 or done.is_set(), timeout=0.5)
             if not gate.waiting:
                 continue
+            if settle and pct is None:
+                # quiescence instead of a fixed sleep: wait until every worker that is inside Job.evaluate has
+                # reached a gate (bounded, because a worker may be blocked on a real lock), so that the choice
+                # among the waiting threads is a real one whatever the speed of the machine
+                gate.cv.wait_for(lambda: len(gate.waiting) >= max(1, gate.active) or done.is_set(), timeout=0.05)
             if pct is not None and last_owner is not None:
                 # give the thread that just ran a moment to reach its next gate
                 gate.cv.wait_for(lambda: any(gate.owner.get(k) == last_owner for k in gate.waiting) or done.is_set(),
                                  timeout=0.003)
-        if settle:
-            time.sleep(settle)      # let other threads reach their gates so that the choice is real
         with gate.cv:
             keys = sorted(gate.waiting)
             if not keys:
@@ -156,6 +160,20 @@ def run_case(ctx, rng, n, workers, ncons, n_pre, with_store, gated, settle, hold
             return orig_sync(ind, *a, **k)
         p.data_store.sync_individual = gated_sync
     algo = DummyAlgorithm(p)
+    job = algo.evaluator.job
+    real_evaluate = job.evaluate
+
+    def counted_evaluate(ind, *a, **k):
+        with gate.cv:
+            gate.active += 1
+            gate.cv.notify_all()
+        try:
+            return real_evaluate(ind, *a, **k)
+        finally:
+            with gate.cv:
+                gate.active -= 1
+                gate.cv.notify_all()
+    job.evaluate = counted_evaluate
     # some designs are already evaluated (serially, ungated) before the parallel batch
     pre = set(rng.sample(range(n), n_pre)) if n_pre else set()
     gate.enabled = False
@@ -377,7 +395,7 @@ def run(ctx):
     ctx.assumptions += ["interleavings inside one modelled action (bytecode level under the GIL, SQLite's own locking) are exercised, not proved",
                         "np.round(cost, 7) is supplied to the model as a table (glue)"]
     tmpdir = tempfile.mkdtemp(prefix="artap-verif-c07-")
-    budget = 45 if ctx.quick else 600
+    budget = 150 if ctx.quick else 900      # safety net only: the plan below is sized by counts, not by time
     t0 = time.time()
     lines, observed, traces, shapes = [], [], [], []
     skipped = 0
@@ -393,7 +411,7 @@ def run(ctx):
                              gated=True, settle=rng.choice([0.0, 0.0005]), hold_lock=False, line_level=True,
                              pct=rng.choice([None, 1, 1, 2, 3])))
         rng.shuffle(plan)
-        for _ in range(400 if ctx.quick else 20000):
+        for _ in range(220 if ctx.quick else 12000):
             n = rng.randint(2, 8)
             plan.append(dict(n=n, workers=rng.randint(2, 4), ncons=rng.choice([0, 0, 1, 2]),
                              n_pre=rng.choice([0, 0, 1, min(2, n - 1)]), with_store=rng.random() < 0.7,
